@@ -575,12 +575,119 @@ impl<C: Suite> Model for M04<C> {
 
 use rand_core::SeedableRng;
 
+// ---- time-lock ciphertexts crafted for the identity signature ---------------------------------------------
+//
+// With the identity point as the decryption "signature" the pairing value is the unit of Gt whatever u is, so anybody
+// can build (u, v, w) that is self-consistent for it: v = SHA-256(1_Gt) xor alpha, u = g^H(alpha || SHA-256(m)).
+// Only the guard on the identity point stands between such a ciphertext and a returned message.
+
+#[derive(Clone, Debug, PartialEq, Eq, Hash, Serialize, Deserialize)]
+pub struct TlSt {
+    s: Scheme,
+    /// 0 = w frames a 20 byte message, 1 = w frames the empty message, 2 = w is empty, 3 = w unmasks to 12 bytes that all
+    /// carry the continuation bit (no length prefix can be parsed), 4 = w unmasks to a single 0x80 byte
+    shape: u8,
+    /// the identity point as the signature (false: as the header u, with an honest signature)
+    sig_identity: bool,
+}
+
+pub struct M04TL<C: Suite> {
+    seed: u64,
+    _c: PhantomData<C>,
+}
+
+impl<C: Suite> Model for M04TL<C> {
+    type State = Option<TlSt>;
+    type Action = TlSt;
+    fn name(&self) -> String {
+        format!("c04-timelock-crafted-for-identity/{}", C::G)
+    }
+    fn init(&self) -> Vec<Option<TlSt>> {
+        vec![None]
+    }
+    fn actions(&self, st: &Option<TlSt>) -> Vec<TlSt> {
+        if st.is_some() {
+            return vec![];
+        }
+        let mut v = vec![];
+        for s in SCHEMES {
+            for shape in 0..5u8 {
+                for sig_identity in [true, false] {
+                    v.push(TlSt { s, shape, sig_identity });
+                }
+            }
+        }
+        v
+    }
+    fn step(&self, _st: &Option<TlSt>, a: &TlSt) -> Option<Option<TlSt>> {
+        Some(Some(a.clone()))
+    }
+    fn describe(&self, st: &Option<TlSt>) -> String {
+        format!("{} time-lock ciphertext crafted for the unit pairing value {:?}: decrypt", C::G, st)
+    }
+    fn required_outcomes(&self) -> Vec<String> {
+        vec!["crafted-for-identity:nothing".into()]
+    }
+    fn check(&self, st: &Option<TlSt>, o: &mut Obs) {
+        use bls12_381_plus::group::Group as _;
+        use sha2::Digest;
+        let Some(st) = st else { return };
+        o.nontrivial = true;
+        let g = C::G;
+        let alpha = rf::scalar_to_le(&rf::hash_to_scalar(&data32(self.seed, "c04-tl-alpha"), rf::SALT_TIMELOCK));
+        let msg: Vec<u8> = match st.shape {
+            0 => data(self.seed, "c04-tl-msg", 20),
+            _ => vec![],
+        };
+        // what the opener will take as the message decides r
+        let mut r_in = alpha.to_vec();
+        r_in.extend_from_slice(&sha2::Sha256::digest(&msg));
+        let r = rf::hash_to_scalar(&r_in, rf::SALT_TIMELOCK);
+        let ru = <C::R as rf::RefSuite>::Pk::generator() * r;
+        let plain: Vec<u8> = match st.shape {
+            0 | 1 => rf::frame(&msg),
+            2 => vec![],
+            3 => vec![0xff; 12],
+            _ => vec![0x80],
+        };
+        let w = rf::xor(&plain, &rf::shake128(&alpha, plain.len()));
+        let unit = bls12_381_plus::Gt::IDENTITY;
+        let v: [u8; 32] = rf::xor(&alpha, &sha2::Sha256::digest(unit.to_bytes().as_ref())).try_into().unwrap();
+        let sk = SecretKey::<C>::from_hash(b"c04 time lock");
+        let (u, sig) = if st.sig_identity {
+            (pt_from::<PkP<C>>(&rf::enc(&ru)).unwrap(), mk_sig::<C>(st.s, SgP::<C>::identity()))
+        } else {
+            (PkP::<C>::identity(), sk.sign(lib_scheme(st.s), b"id").unwrap())
+        };
+        let ct = TimeCryptCiphertext::<C> { u, v, w: w.clone(), scheme: lib_scheme(st.s) };
+        let d = guard(|| Option::<Vec<u8>>::from(ct.decrypt(&sig)));
+        let t = guard(|| Option::<Vec<u8>>::from(<C as BlsTimeCrypt>::unseal(u, &v, &w, *sig.as_raw_value(), 1u8.into())));
+        o.calls(2);
+        let which = if st.sig_identity { "identity-signature" } else { "identity-header" };
+        for (entry, r) in [("TimeCryptCiphertext::decrypt", &d), ("BlsTimeCrypt::unseal", &t)] {
+            let nothing = matches!(r, Ok(None));
+            o.outcome(if nothing { "crafted-for-identity:nothing" } else { "crafted-for-identity:something" });
+            o.expect(
+                &format!("C04:timelock-crafted-for-{}:{}:{}:{}:shape{}", which, entry, g, st.s.name(), st.shape),
+                nothing,
+                "nothing",
+                &match r {
+                    Ok(Some(m)) => format!("a message of {} bytes", m.len()),
+                    Ok(None) => "nothing".into(),
+                    Err(p) => format!("PANIC {}", p),
+                },
+            );
+        }
+    }
+}
+
 pub fn models(tier: Tier, seed: u64) -> Vec<Box<dyn DynModel>> {
     vec![
         bounded(M04::<Bls12381G1Impl>::new(tier, seed), 6),
         bounded(M04::<Bls12381G2Impl>::new(tier, seed), 6),
     ]
     .into_iter()
+    .chain([bounded(M04TL::<Bls12381G1Impl> { seed, _c: PhantomData }, 1), bounded(M04TL::<Bls12381G2Impl> { seed, _c: PhantomData }, 1)])
     .chain(crate::props::tsurf::models("C04", tier, seed))
     .collect()
 }
